@@ -10,14 +10,24 @@ namespace LinVerif.Queue
 
 def idle : Nat → Th := fun _ => .idle
 
-structure Quiesc (st : St) : Prop where
+/-- the volatile cursor is what NewQueue would compute from the last sequence's item -/
+structure Synced (st : St) : Prop where
   cur0 : st.q.appended = -1 → st.q.dataPageIndex = 0 ∧ st.q.messageOffset = 0
   cur : ∀ n : Nat, (n : Int) = st.q.appended →
     st.q.dataPageIndex = (entry st.mem n).pg ∧
     st.q.messageOffset = (entry st.mem n).off + (entry st.mem n).len
+  ipi : st.q.indexPageIndex = st.q.appended.toNat / indexItemsPerPage
+
+/-- `mono`: data page ids are monotone from the acknowledged sequence on. `base`: the item of
+the last sequence points at or below the cursor's page and inside a page (after a reset it
+may be stale or all zero). `sync`: as soon as something is readable the cursor is the end of
+the last item (only right after `SetAppendedSeq` it is not). -/
+structure Quiesc (st : St) : Prop where
   mono : ∀ n n' : Nat, st.q.acked ≤ (n : Int) → n ≤ n' → (n' : Int) ≤ st.q.appended →
     (entry st.mem n).pg ≤ (entry st.mem n').pg
-  ipi : st.q.indexPageIndex = st.q.appended.toNat / indexItemsPerPage
+  base : ∀ n : Nat, (n : Int) = st.q.appended →
+    (entry st.mem n).pg ≤ st.q.dataPageIndex ∧ (entry st.mem n).off + (entry st.mem n).len ≤ dataPageSize
+  sync : st.q.acked < st.q.appended → Synced st
 
 structure Inv (st : St) : Prop where
   core : InvC st.mem st.q idle
@@ -44,7 +54,8 @@ theorem mkInvC_idle {mem : Mem} {q : Q}
     (metaApp : mem.metaW queueAppendedSeqOffset = q.appended)
     (metaAck : mem.metaW queueAcknowledgedSeqOffset = q.acked)
     (hasMeta : mem.hasMeta = true) (curBound : q.messageOffset ≤ dataPageSize)
-    (curLive : q.dataPageIndex ∈ mem.dataLive) (idxLive : q.indexPageIndex ∈ mem.indexLive)
+    (curLive : q.dataPageIndex ∈ mem.dataLive)
+    (idxLive : q.indexPageIndex ∈ mem.indexLive ∨ q.indexPageIndex < nextSeq q / indexItemsPerPage)
     (ent : ∀ n, Readable q n → GoodRegion mem q (entry mem n) ∧ n / indexItemsPerPage ∈ mem.indexLive) :
     InvC mem q idle :=
   ⟨ackLo, ackHi, metaApp, metaAck, hasMeta, curBound, curLive, idxLive, ent,
@@ -64,8 +75,10 @@ theorem init_inv : Inv St.init := by
   constructor
   · apply mkInvC_idle <;> simp only [h6, h1, h2, h3, h4, h5] <;> try simp
     all_goals (intro n hn; unfold Readable at hn; dsimp only at hn; omega)
-  · constructor <;> simp only [h6] <;> try simp
-    all_goals (intros; omega)
+  · refine ⟨?_, ?_, ?_⟩ <;> simp only [h6]
+    · intros; omega
+    · intros; omega
+    · intro h; omega
 
 
 /-! ### Put run to completion -/
@@ -118,14 +131,8 @@ theorem put_inv {st : St} (I : Inv st) (m : Msg) (hl : m.len ≤ dataPageSize) :
     rw [entry_persistStores_ne _ _ _ _ _ _ (by simpa using hn), entry_writeData, alloc_entry]
   refine ⟨⟨I3, ?_⟩, rfl, by simp [publish], by simp [publish], ?_, c3n⟩
   · obtain ⟨hpg, hmo⟩ := alloc_end st.mem st.q m.len
-    constructor
-    · intro h; simp [publish] at h; omega
-    · intro n hn
-      simp only [publish, alloc_appended] at hn
-      have : n = nextSeq st.q := by omega
-      subst this
-      dsimp only [publish]
-      rw [e3]; exact ⟨hpg, hmo⟩
+    have hcb := alloc_cursor st.mem st.q m.len I.core.curBound hl
+    refine ⟨?_, ?_, fun _ => ⟨?_, ?_, ?_⟩⟩
     · intro n n' h1 h2 h3
       simp only [publish, alloc_appended, alloc_acked] at h1 h3
       by_cases e' : n' = nextSeq st.q
@@ -136,12 +143,28 @@ theorem put_inv {st : St} (I : Inv st) (m : Msg) (hl : m.len ≤ dataPageSize) :
           rw [e3, hent n e]
           dsimp only
           have hge := alloc_pg_ge st.mem st.q m.len
-          have hcur := I.qs.cur st.q.appended.toNat (by omega)
+          have hah := I.core.ackHi
+          have hb := I.qs.base st.q.appended.toNat (by omega)
           have hm := I.qs.mono n st.q.appended.toNat h1 (by omega) (by omega)
           omega
       · dsimp only
         rw [hent n (by omega), hent n' e']
         exact I.qs.mono n n' h1 h2 (by omega)
+    · intro n hn
+      simp only [publish, alloc_appended] at hn
+      have : n = nextSeq st.q := by omega
+      subst this
+      dsimp only [publish]
+      rw [e3]
+      dsimp only
+      omega
+    · intro h; simp [publish] at h; omega
+    · intro n hn
+      simp only [publish, alloc_appended] at hn
+      have : n = nextSeq st.q := by omega
+      subst this
+      dsimp only [publish]
+      rw [e3]; exact ⟨hpg, hmo⟩
     · simp only [publish, alloc_appended, alloc_nextSeq]; rfl
   · intro n hn
     dsimp only
@@ -158,7 +181,8 @@ theorem frame_inv {st : St} (I : Inv st) (mem' : Mem) (db ib : Nat)
     (hdl : ∀ p, p ∈ st.mem.dataLive → db ≤ p → p ∈ mem'.dataLive)
     (hil : ∀ p, p ∈ st.mem.indexLive → ib ≤ p → p ∈ mem'.indexLive)
     (hdb : ∀ n : Nat, Readable st.q n → db ≤ (entry st.mem n).pg) (hdc : db ≤ st.q.dataPageIndex)
-    (hib : ∀ n : Nat, Readable st.q n → ib ≤ n / indexItemsPerPage) (hic : ib ≤ st.q.indexPageIndex) :
+    (hib : ∀ n : Nat, Readable st.q n → ib ≤ n / indexItemsPerPage)
+    (hic : ib ≤ st.q.indexPageIndex ∨ st.q.indexPageIndex < nextSeq st.q / indexItemsPerPage) :
     Inv ⟨mem', st.q⟩ := by
   have C := I.core
   constructor
@@ -168,7 +192,11 @@ theorem frame_inv {st : St} (I : Inv st) (mem' : Mem) (db ib : Nat)
     · show mem'.hasMeta = true; rw [hhas]; exact C.hasMeta
     · exact C.curBound
     · exact hdl _ C.curLive hdc
-    · exact hil _ C.idxLive hic
+    · rcases C.idxLive with hl | hr
+      · rcases hic with h1 | h2
+        · exact Or.inl (hil _ hl h1)
+        · exact Or.inr h2
+      · exact Or.inr hr
     · intro n hn
       have hn' : Readable st.q n := hn
       obtain ⟨⟨g1, g2, g3⟩, g4⟩ := C.ent n hn'
@@ -176,56 +204,107 @@ theorem frame_inv {st : St} (I : Inv st) (mem' : Mem) (db ib : Nat)
       dsimp only
       rw [he]
       exact ⟨⟨g1, g2, hdl _ g3 (hdb n hn')⟩, hil _ g4 (hib n hn')⟩
-  · constructor
-    · exact I.qs.cur0
-    · intro n hn
-      have hn' : (n : Int) = st.q.appended := hn
-      dsimp only
-      rw [hent n (by have := C.ackHi; omega) (by omega)]
-      exact I.qs.cur n hn'
+  · refine ⟨?_, ?_, ?_⟩
     · intro n n' h1 h2 h3
       have h1' : st.q.acked ≤ (n : Int) := h1
       have h3' : (n' : Int) ≤ st.q.appended := h3
       dsimp only
       rw [hent n h1' (by omega), hent n' (by omega) h3']
       exact I.qs.mono n n' h1' h2 h3'
-    · exact I.qs.ipi
+    · intro n hn
+      have hn' : (n : Int) = st.q.appended := hn
+      dsimp only
+      rw [hent n (by have := C.ackHi; omega) (by omega)]
+      exact I.qs.base n hn'
+    · intro hlt
+      have S := I.qs.sync hlt
+      refine ⟨S.cur0, ?_, S.ipi⟩
+      intro n hn
+      have hn' : (n : Int) = st.q.appended := hn
+      dsimp only
+      rw [hent n (by have := C.ackHi; omega) (by omega)]
+      exact S.cur n hn'
 
-/-! ### reopen is the identity between complete Puts -/
+/-! ### reopen -/
 
-theorem reopen_eq {st : St} (I : Inv st) : openQ st.mem = st := by
+/-- NewQueue on the directory of a state satisfying `Inv`: sequences are read back from the
+meta page, the cursor is recomputed from the last sequence's item — the same cursor whenever
+something is readable — and only page files may be added. -/
+theorem reopen_inv {st : St} (I : Inv st) :
+    Inv (openQ st.mem) ∧ Pres st (openQ st.mem) ∧
+    (openQ st.mem).q.appended = st.q.appended ∧ (openQ st.mem).q.acked = st.q.acked := by
   have C := I.core
   have hap : -1 ≤ st.q.appended := Int.le_trans C.ackLo C.ackHi
   unfold openQ
   rw [if_pos C.hasMeta, C.metaApp, C.metaAck]
   unfold initDataPageIndex
-  obtain ⟨mem, ⟨app, ak, dpi, ipi, mo⟩⟩ := st
-  dsimp only at *
   split
   · rename_i h
-    subst h
-    obtain ⟨h1, h2⟩ := I.qs.cur0 rfl
-    have h3 := I.qs.ipi
-    dsimp only at h1 h2 h3
-    subst h1 h2
-    have h3' : ipi = 0 := by rw [h3]; decide
-    subst h3'
-    have hd : acquireData mem 0 = mem := acquireData_of_live _ _ C.curLive
-    rw [hd, acquireIndex_of_live _ _ C.idxLive]
+    have hak : st.q.acked = -1 := by have := C.ackLo; have := C.ackHi; omega
+    refine ⟨⟨?_, ?_⟩, ⟨by dsimp only; omega, by dsimp only; omega, ?_⟩, rfl, rfl⟩
+    · apply mkInvC_idle <;> dsimp only
+      · omega
+      · omega
+      · simpa using C.metaApp
+      · simpa using C.metaAck
+      · simpa using C.hasMeta
+      · qomega
+      · simp [acquireData_live]
+      · left; simp [acquireIndex_live]
+      · intro n hn; unfold Readable at hn; dsimp only at hn; omega
+    · refine ⟨?_, ?_, ?_⟩ <;> dsimp only
+      · intro n n' h1 h2 h3; omega
+      · intro n hn; omega
+      · intro hlt; omega
+    · intro n hn _; unfold Readable at hn; omega
   · rename_i h
-    have h3 := I.qs.ipi
-    dsimp only at h3
-    have hi : acquireIndex mem (app.toNat / indexItemsPerPage) = mem := by
-      rw [← h3]; exact acquireIndex_of_live _ _ C.idxLive
-    obtain ⟨c1, c2⟩ := I.qs.cur app.toNat (by dsimp only; omega)
-    dsimp only at c1 c2
-    simp only [hi]
-    rw [← c1, acquireData_of_live _ _ C.curLive, ← c2, ← h3]
-    have hb := C.curBound
-    dsimp only at hb
-    have : mo % u32 = mo := Nat.mod_eq_of_lt (by qomega)
-    rw [this]
-
+    have hn0 : ((st.q.appended.toNat : Nat) : Int) = st.q.appended := by omega
+    obtain ⟨b1, b2⟩ := I.qs.base st.q.appended.toNat hn0
+    simp only [entry_acquireIndex]
+    have hmod : ((entry st.mem st.q.appended.toNat).off + (entry st.mem st.q.appended.toNat).len) % u32 =
+        (entry st.mem st.q.appended.toNat).off + (entry st.mem st.q.appended.toNat).len :=
+      Nat.mod_eq_of_lt (by qomega)
+    rw [hmod]
+    refine ⟨⟨?_, ?_⟩, ⟨by dsimp only; omega, by dsimp only; omega, ?_⟩, by simp, by simp⟩
+    · apply mkInvC_idle <;> dsimp only
+      · exact C.ackLo
+      · exact C.ackHi
+      · simpa using C.metaApp
+      · simpa using C.metaAck
+      · simpa using C.hasMeta
+      · exact b2
+      · simp [acquireData_live]
+      · left; simp [acquireData, acquireIndex_live]
+        split <;> simp [acquireIndex_live]
+      · intro n hn
+        have hn' : Readable st.q n := hn
+        have S := I.qs.sync (by unfold Readable at hn'; omega)
+        obtain ⟨c1, c2⟩ := S.cur st.q.appended.toNat hn0
+        obtain ⟨⟨g1, g2, g3⟩, g4⟩ := C.ent n hn'
+        simp only [entry_acquireData, entry_acquireIndex]
+        refine ⟨⟨?_, g2, ?_⟩, ?_⟩
+        · unfold Below at *; dsimp only; omega
+        · rw [acquireData_live]; right; simpa using g3
+        · simp only [acquireData_indexLive, acquireIndex_live]; right; exact g4
+    · refine ⟨?_, ?_, fun _ => ⟨?_, ?_, ?_⟩⟩ <;> dsimp only
+      · intro n n' h1 h2 h3
+        simp only [entry_acquireData, entry_acquireIndex]
+        exact I.qs.mono n n' h1 h2 h3
+      · intro n hn
+        have : n = st.q.appended.toNat := by omega
+        subst this
+        simp only [entry_acquireData, entry_acquireIndex]
+        exact ⟨Nat.le_refl _, b2⟩
+      · intro h'; exact absurd h' h
+      · intro n hn
+        have : n = st.q.appended.toNat := by omega
+        subst this
+        simp
+    · intro n hn _
+      dsimp only
+      unfold content
+      simp only [entry_acquireData, entry_acquireIndex]
+      apply readBytes_congr; intro i _; simp
 
 /-! ### crash after a store prefix of an in-flight Put -/
 
@@ -283,7 +362,7 @@ theorem putStores_frame {st : St} (I : Inv st) (m : Msg) (k : Nat) (hk : k < m.l
     · intro _ _; exact Nat.zero_le _
     · exact Nat.zero_le _
     · intro _ _; exact Nat.zero_le _
-    · exact Nat.zero_le _
+    · exact Or.inl (Nat.zero_le _)
   · intro n hn
     unfold content
     rw [hent n hn.2]
@@ -297,22 +376,25 @@ theorem crashPut_inv {st : St} (I : Inv st) (m : Msg) (k : Nat) :
     Inv (crashPut st m k) ∧ Pres st (crashPut st m k) := by
   unfold crashPut
   split
-  · rw [reopen_eq I]; exact ⟨I, Pres.refl _⟩
+  · obtain ⟨I', p, _⟩ := reopen_inv I
+    exact ⟨I', p⟩
   · rename_i hl
     have hl : m.len ≤ dataPageSize := by omega
     by_cases hk : k < m.len + 4
     · obtain ⟨I', c⟩ := putStores_frame I m k hk
-      have := reopen_eq I'
-      dsimp only at this
-      rw [this]
-      exact ⟨I', Int.le_refl _, Int.le_refl _, fun n hn _ => c n hn⟩
+      obtain ⟨I'', p, _⟩ := reopen_inv I'
+      have p0 : Pres st ⟨putStores (alloc st.mem st.q m.len) m k, st.q⟩ :=
+        ⟨Int.le_refl _, Int.le_refl _, fun n hn _ => c n hn⟩
+      exact ⟨I'', p0.trans p⟩
     · have he : putStores (alloc st.mem st.q m.len) m k = (put st m).1.mem := by
         rw [put_eq st m hl]
         unfold putStores
         rw [if_neg (by omega), persistStores_ge4 _ _ _ _ _ _ (by omega)]
       obtain ⟨I', _, h2, h3, c, _⟩ := put_inv I m hl
-      rw [he, reopen_eq I']
-      exact ⟨I', by omega, by omega, fun n hn _ => c n hn⟩
+      obtain ⟨I'', p, _⟩ := reopen_inv I'
+      rw [he]
+      have p0 : Pres st (put st m).1 := ⟨by omega, by omega, fun n hn _ => c n hn⟩
+      exact ⟨I'', p0.trans p⟩
 
 /-! ### GC -/
 
@@ -331,7 +413,7 @@ theorem gc_inv {st : St} (I : Inv st) : Inv (gc st) ∧ Pres st (gc st) := by
           (entry st.mem st.q.acked.toNat).pg ≤ (entry st.mem n).pg := by
         intro n h1 h2
         exact I.qs.mono _ n (by omega) (by omega) h2
-      have hcur := I.qs.cur st.q.appended.toNat (by have := C.ackHi; omega)
+      have hbase := I.qs.base st.q.appended.toNat (by omega)
       have hent : ∀ n : Nat, st.q.acked ≤ (n : Int) →
           entry (truncateIndex (truncateData st.mem (entry st.mem st.q.acked.toNat).pg)
             (st.q.acked.toNat / indexItemsPerPage)) n = entry st.mem n := by
@@ -351,9 +433,14 @@ theorem gc_inv {st : St} (I : Inv st) : Inv (gc st) ∧ Pres st (gc st) := by
           simp only [truncateIndex, truncateData, List.mem_filter, decide_eq_true_eq]
           exact ⟨hp, hb⟩
         · intro n hn; exact hdb n (by unfold Readable at hn; omega) hn.2
-        · rw [hcur.1]; exact hdb _ (by have := C.ackHi; omega) (by omega)
+        · have := hdb st.q.appended.toNat (by have := C.ackHi; omega) (by omega)
+          omega
         · intro n hn; unfold Readable at hn; qomega
-        · rw [I.qs.ipi]; have := C.ackHi; qomega
+        · have := C.ackHi
+          have hap := nextSeq_cast (Int.le_trans C.ackLo C.ackHi)
+          by_cases hc : st.q.acked.toNat / indexItemsPerPage ≤ st.q.indexPageIndex
+          · exact Or.inl hc
+          · right; qomega
       refine ⟨hI, Int.le_refl _, Int.le_refl _, ?_⟩
       intro n hn _
       dsimp only
@@ -388,7 +475,13 @@ theorem putF_eq (st : St) (m : Msg) :
     · simp [h1, h2]
     · simp [h1, h2]
 
-theorem step_inv {st : St} (I : Inv st) (op : Op) : Inv (step st op) ∧ Pres st (step st op) := by
+/-- operations other than the explicit reset -/
+def Op.noReset : Op → Prop
+  | .setAppended _ => False
+  | _ => True
+
+theorem step_inv {st : St} (I : Inv st) (op : Op) (hnr : op.noReset) :
+    Inv (step st op) ∧ Pres st (step st op) := by
   cases op with
   | put m => exact step_inv_put I m
   | putFail m =>
@@ -397,6 +490,7 @@ theorem step_inv {st : St} (I : Inv st) (op : Op) : Inv (step st op) ∧ Pres st
     split
     · exact ⟨I, Pres.refl _⟩
     · exact step_inv_put I m
+  | setAppended s => exact absurd hnr (by simp [Op.noReset])
   | get s => exact ⟨I, Pres.refl _⟩
   | ack s =>
     show Inv (ack st s) ∧ Pres st (ack st s)
@@ -409,23 +503,125 @@ theorem step_inv {st : St} (I : Inv st) (op : Op) : Inv (step st op) ∧ Pres st
       · rename_i h; exact ⟨rfl, rfl, rfl, rfl, by dsimp only; omega, fun n => rfl⟩
       · exact ⟨rfl, rfl, rfl, rfl, Int.le_refl _, fun n => rfl⟩
     obtain ⟨q1, q2, q3, q4, q5, q6⟩ := hq
-    constructor
-    · rw [q1, q2, q3]; exact I.qs.cur0
-    · intro n hn; rw [q2, q3, q6]; exact I.qs.cur n (by omega)
+    refine ⟨?_, ?_, ?_⟩
     · intro n n' h1 h2 h3; rw [q6, q6]; exact I.qs.mono n n' (by omega) h2 (by omega)
-    · rw [q4, q1]; exact I.qs.ipi
+    · intro n hn; rw [q2, q6]; exact I.qs.base n (by omega)
+    · intro hlt
+      have S := I.qs.sync (by omega)
+      refine ⟨?_, ?_, ?_⟩
+      · rw [q1, q2, q3]; exact S.cur0
+      · intro n hn; rw [q2, q3, q6]; exact S.cur n (by omega)
+      · rw [q4, q1]; exact S.ipi
   | gc => exact gc_inv I
   | reopen =>
-    show Inv (openQ st.mem) ∧ Pres st (openQ st.mem)
-    rw [reopen_eq I]; exact ⟨I, Pres.refl _⟩
+    obtain ⟨I', p, _⟩ := reopen_inv I
+    exact ⟨I', p⟩
   | crashPut m k => exact crashPut_inv I m k
 
-theorem run_inv {st : St} (I : Inv st) (ops : List Op) : Inv (run st ops) ∧ Pres st (run st ops) := by
+theorem run_inv {st : St} (I : Inv st) (ops : List Op) (hnr : ∀ op ∈ ops, op.noReset) :
+    Inv (run st ops) ∧ Pres st (run st ops) := by
   induction ops generalizing st with
   | nil => exact ⟨I, Pres.refl _⟩
   | cons op ops ih =>
-    obtain ⟨I1, p1⟩ := step_inv I op
-    obtain ⟨I2, p2⟩ := ih I1
+    obtain ⟨I1, p1⟩ := step_inv I op (hnr op (by simp))
+    obtain ⟨I2, p2⟩ := ih I1 (fun o ho => hnr o (by simp [ho]))
     exact ⟨I2, p1.trans p2⟩
+
+/-! ### the explicit reset -/
+
+/-- what `SetAppendedSeq(s)` needs of the state it is called in, for the queue to stay
+consistent afterwards: `s ≥ -1`; the index item at `s` (stale, or zero when never written)
+points at or below the cursor's page and inside a page; the index page the queue object
+holds was not truncated away, or the next append switches pages anyway. It holds for every
+forward reset onto never-written sequences and for every backward reset onto a sequence
+appended since the cursor last moved backwards. -/
+def ResetOK (st : St) (s : Int) : Prop :=
+  -1 ≤ s ∧
+  (∀ n : Nat, (n : Int) = s →
+    (entry st.mem n).pg ≤ st.q.dataPageIndex ∧ (entry st.mem n).off + (entry st.mem n).len ≤ dataPageSize) ∧
+  (st.q.indexPageIndex ∈ st.mem.indexLive ∨ st.q.indexPageIndex < (s + 1).toNat / indexItemsPerPage)
+
+theorem setAppended_inv {st : St} (I : Inv st) (s : Int) (h : ResetOK st s) :
+    Inv (setAppended st s) ∧ (setAppended st s).q.appended = s ∧ (setAppended st s).q.acked = s := by
+  obtain ⟨h1, h2, h3⟩ := h
+  have C := I.core
+  refine ⟨⟨?_, ?_⟩, rfl, rfl⟩
+  · apply mkInvC_idle <;> simp only [setAppended]
+    · exact h1
+    · exact Int.le_refl _
+    · simp [setMeta]
+    · simp [setMeta]
+    · exact C.hasMeta
+    · exact C.curBound
+    · exact C.curLive
+    · exact h3
+    · intro n hn; unfold Readable at hn; dsimp only at hn; omega
+  · refine ⟨?_, ?_, ?_⟩ <;> simp only [setAppended]
+    · intro n n' a1 a2 a3
+      have : n = n' := by omega
+      subst this; exact Nat.le_refl _
+    · intro n hn; simp only [entry_setMeta]; exact h2 n hn
+    · intro hlt; omega
+
+/-- which operations are covered: everything, resets only when `ResetOK` -/
+def OpOK (st : St) : Op → Prop
+  | .setAppended s => ResetOK st s
+  | _ => True
+
+def OpsOK (st : St) : List Op → Prop
+  | [] => True
+  | op :: ops => OpOK st op ∧ OpsOK (step st op) ops
+
+/-- sequence `n` is readable in every state along the history -/
+def Stays (st : St) (n : Nat) : List Op → Prop
+  | [] => Readable st.q n
+  | op :: ops => Readable st.q n ∧ Stays (step st op) n ops
+
+theorem step_inv_ok {st : St} (I : Inv st) (op : Op) (h : OpOK st op) : Inv (step st op) := by
+  cases op with
+  | setAppended s => exact (setAppended_inv I s h).1
+  | put m => exact (step_inv I (.put m) trivial).1
+  | putFail m => exact (step_inv I (.putFail m) trivial).1
+  | get s => exact (step_inv I (.get s) trivial).1
+  | ack s => exact (step_inv I (.ack s) trivial).1
+  | gc => exact (step_inv I .gc trivial).1
+  | reopen => exact (step_inv I .reopen trivial).1
+  | crashPut m k => exact (step_inv I (.crashPut m k) trivial).1
+
+theorem run_inv_ok {st : St} (I : Inv st) (ops : List Op) (h : OpsOK st ops) : Inv (run st ops) := by
+  induction ops generalizing st with
+  | nil => exact I
+  | cons op ops ih => exact ih (step_inv_ok I op h.1) h.2
+
+/-- along any covered history (resets included) a sequence that stays readable keeps its bytes -/
+theorem run_content {st : St} (I : Inv st) (ops : List Op) (n : Nat) (h : OpsOK st ops)
+    (hs : Stays st n ops) :
+    Readable (run st ops).q n ∧ content (run st ops).mem n = content st.mem n := by
+  induction ops generalizing st with
+  | nil => exact ⟨hs, rfl⟩
+  | cons op ops ih =>
+    obtain ⟨hr, hs'⟩ := hs
+    have I1 := step_inv_ok I op h.1
+    have hr1 : Readable (step st op).q n := by
+      cases ops with
+      | nil => exact hs'
+      | cons _ _ => exact hs'.1
+    obtain ⟨r2, c2⟩ := ih I1 h.2 hs'
+    refine ⟨r2, ?_⟩
+    show content (run (step st op) ops).mem n = _
+    rw [c2]
+    cases op with
+    | setAppended s =>
+      exfalso
+      have : (setAppended st s).q.acked = (setAppended st s).q.appended := rfl
+      have hr1' : Readable (setAppended st s).q n := hr1
+      unfold Readable at hr1'; omega
+    | put m => exact (step_inv I (.put m) trivial).2.2.2 n hr hr1
+    | putFail m => exact (step_inv I (.putFail m) trivial).2.2.2 n hr hr1
+    | get s => exact (step_inv I (.get s) trivial).2.2.2 n hr hr1
+    | ack s => exact (step_inv I (.ack s) trivial).2.2.2 n hr hr1
+    | gc => exact (step_inv I .gc trivial).2.2.2 n hr hr1
+    | reopen => exact (step_inv I .reopen trivial).2.2.2 n hr hr1
+    | crashPut m k => exact (step_inv I (.crashPut m k) trivial).2.2.2 n hr hr1
 
 end LinVerif.Queue
